@@ -293,6 +293,7 @@ class FakeLock:
         K.seam(("dlock.release", self.name))
         cl.locks[self.name].release()
         cl.events.append(("dlock.released", cl.who(), self.name))
+        return True  # as the installed distributed.Lock does
 
     def locked(self):
         lk = CLUSTER.locks.get(self.name)
